@@ -119,7 +119,8 @@ impl Mempool {
             public_key = wallet.public_key;
             transaction.generate(&public_key, 0, 0);
 
-            tx_valid = transaction.validate(&blockchain.utxoset, blockchain, true);
+            tx_valid = transaction.is_acceptable_outside_a_block(blockchain)
+                && transaction.validate(&blockchain.utxoset, blockchain, true);
         }
 
         // validate
